@@ -359,6 +359,24 @@ func (vc *VC) loopHashBody(fr *Frame, li *loopInfo, st *State, env *Env) {
 			}
 		}
 	}
+	if li.idxCell != nil {
+		if c := fr.cells[li.idxCell]; c != nil {
+			if t, ok := st.locals[c]; ok {
+				env.hash["idx"] = Val{T: tInt, S: t}
+				env.hash["i"] = Val{T: tInt, S: t}
+			}
+		}
+		if li.rangeLen != nil {
+			if v, ok := fr.regs[li.rangeLen]; ok {
+				env.hash["len"] = v
+			}
+		}
+		if li.rangeColl != nil {
+			if v, ok := fr.regs[li.rangeColl]; ok {
+				env.hash["coll"] = v
+			}
+		}
+	}
 	if li.rng != nil {
 		if it := fr.iters[li.rng]; it != nil {
 			if t, ok := st.locals[it.it]; ok {
@@ -2022,6 +2040,14 @@ func externRefFree(callee *ssa.Function, common *ssa.CallCommon) bool {
 	case "log":
 		n := callee.Name()
 		if strings.HasPrefix(n, "Fatal") || strings.HasPrefix(n, "Panic") || strings.HasPrefix(n, "Set") {
+			return false
+		}
+	case "math/rand", "math/rand/v2", "crypto/rand":
+		// not functions of their arguments: a report that consults them is no longer a function of its inputs (C05)
+		return false
+	case "time":
+		switch callee.Name() {
+		case "Now", "Since", "Until", "Sleep", "After", "Tick", "NewTimer", "NewTicker", "AfterFunc":
 			return false
 		}
 	}
